@@ -1,13 +1,14 @@
 SPEC = {
-    "claimed": False,
+    "claimed": True,
     "gen": ["gamenet"],
     "theorems": ["C14_codecs_match_tw05", "C14_codecs_match_tw06", "C14_codecs_match_tw07",
                  "C14_codecs_match_ddnet", "C14_wf_all", "C14_roundtrip", "C14_msg_roundtrip",
                  "C14_generated_roundtrip", "C14_rejects", "C14_rejects_short", "C14_total",
-                 "C14_obj_words", "C14_k14_objects", "K14_refuted", "K14_refuted_length", "C14_nonvacuous"],
+                 "C14_obj_words", "C14_obj_roundtrip", "C14_obj_rejects", "C14_k14_objects",
+                 "K14_refuted", "K14_refuted_length", "C14_nonvacuous"],
     "allowed_axioms": [],
     "extract": {
-        "LibTw2.Model.Codec": ["decode_sysgame", "decode_connless", "encode_msg", "find_codec", "decode_snap_obj",
+        "LibTw2.Model.Codec": ["decode_sysgame", "decode_connless", "encode_msg", "encode", "decode_w", "tag_codec", "find_codec", "decode_snap_obj",
                                "encode_obj_bytes", "obj_size"],
         "LibTw2.Gen.Rs_tw05": ["codecs", "objs"],
         "LibTw2.Gen.Rs_tw06": ["codecs", "objs"],
@@ -16,4 +17,38 @@ SPEC = {
     },
     "components": [{"bin": "codec", "driver": "drv_codec", "timeout": {"quick": 600, "thorough": 3000}}],
     "release": False,
+    "rule": "see components.codec.rule",
+    "covered": "all four generated crates (teeworlds-0.5, 0.6, 0.7, ddnet): every system, game and connless "
+               "message, every snapshot object (as words) and the msg_encoding form of the objects embedded in "
+               "messages; message ids, connless ids, obj_size, enum tables",
+    "not_covered": [
+        "encode is run on the real code for every value decode can produce plus a hand-built set of values it "
+        "cannot produce (failing asserts, None, NUL in a string, capacity/panic order); not for every codec",
+        "gamenet/<proto>/src/msg/mod.rs (decode / decode_msg wrappers over the same dispatchers) and traits.rs "
+        "are not driven separately",
+        "a `flags` member is a plain int in datatypes.py (NetFlag adds nothing to NetIntAny): undefined flag "
+        "bits are accepted by the description's meaning and by the code; this is not counted as a violation",
+    ],
+    "trusted_base": [
+        "tools/gen_gamenet.py reads the generated Rust (token level, raises on any unknown item / statement / "
+        "expression form) and the JSON descriptions (raises on unknown keys / kinds); its Rust side is exercised "
+        "by the correspondence run (the model interprets the tables read from the Rust)",
+        "Model/Codec.v gives each member operation its meaning; reading/writing goes through Model/Packer.v (C08)",
+        "repr(C) layout rule (fields in order, each aligned, size rounded to the alignment; little-endian i32) is "
+        "written in Model/Codec.v and checked against the real structs by the correspondence run on x86_64",
+        "i32::from_str / Display for i32 (int_from_string, string_from_int) are modelled by parse_int / print_int",
+    ],
+    "assumptions": ["input bytes are u8 and input words are i32 (bytes_ok, is_i32)",
+                    "described values (well_typed): strings NUL-free, data at most i32::MAX bytes, optional members present "
+                    "(the generated encode asserts is_some)",
+                    "a member that takes the rest of the message is the last member (holds for every generated codec: C14_wf_all)"],
+    "explanation": "C14_codecs_match_<proto> re-decides, against the current Rust and JSON, that every generated codec is "
+                   "the described one (a difference names the codec); C14_roundtrip / C14_rejects / C14_total are proved "
+                   "by induction over the member list for every well-formed codec and every described value, and "
+                   "C14_wf_all shows every generated codec is well-formed; the interpreter's meaning of each member "
+                   "operation is tied to the real crates by running System/Game/Connless::decode+encode and "
+                   "SnapObj::decode_obj+encode on cases built from the descriptions",
+    "level_text": "proof over all codecs/values + translator equality re-decided per run + differential run on the real crates",
+    "level_note": "K14 (objects with a bool member) is a known finding: C14_obj_words holds for objects without bool "
+                  "members, K14_refuted / K14_refuted_length exhibit the failure on the model, the harness reproduces it",
 }
